@@ -1460,7 +1460,38 @@ def mon_c04(case_line, acts):
                          % (m['q'], m['pid'], m['topic'].hex(), res[:40])))
             return out
         elif expected_msgs:
-            return out          # the call failed or was dropped after reading the packet: outside this monitor
+            # the call took a deliverable PUBLISH out of the reader and then failed or was dropped without surfacing it.
+            # The unchanged client returns the message straight after handling the packet (no await point in between), so
+            # this is already odd; it is a violation as soon as the message is lost for good: a QoS 0 message at once, a
+            # QoS 1/2 message when its PUBACK / PUBREC reaches the wire although the application never saw it.
+            m = expected_msgs[0]
+            if res in ('PANIC', 'FUEL'):
+                return out
+            if m['q'] == 0:
+                out.append(V('inbound QoS 0 PUBLISH (topic %s) was consumed by a call that ended with "%s": never surfaced'
+                             % (m['topic'].hex(), res[:40])))
+                return out
+            want_typ = 'PUBACK' if m['q'] == 1 else 'PUBREC'
+            seen_rx = False
+            for j in range(i, len(acts)):
+                if j > i and acts[j].code == 0 and (acts[j].result or '').startswith('ok connected'):
+                    return out      # fresh session: the exchange is forgotten on both sides
+                for ev in per[j]:
+                    if ev[0] == 'rx' and (ev[1] >> 4) == 3:
+                        mm = _parse_inbound_publish(ev[1], ev[2])
+                        if j == i and not seen_rx:
+                            if mm is not None and mm.get('pid') == m['pid']:
+                                seen_rx = True
+                            continue
+                        if mm is None or mm.get('pid') == m['pid']:
+                            return out      # the broker sent it again: it may yet be delivered
+                    elif ev[0] == 'tx' and (j > i or seen_rx) and ev[1]['type'] == want_typ and ev[1].get('pid') == m['pid'] \
+                            and ev[1].get('reason', 0) < 0x80:
+                        out.append(V('inbound PUBLISH (QoS %d, id %s, topic %s) was consumed by action #%d, which ended with "%s" '
+                                     'without surfacing it; its %s was written at action #%d: acknowledged, never delivered'
+                                     % (m['q'], m['pid'], m['topic'].hex(), i, res[:30], want_typ, j)))
+                        return out
+            return out
         if a.code == 0 and res.startswith('ok connected'):
             pending.clear(); owed = []; sent = done = 0; unacked = {}
         stv = a.state or {}
